@@ -119,6 +119,12 @@ def gen_spec(rng, cfg, doc, depth):
                 kw["additionalItems"] = False
             elif a < 0.6:
                 kw["additionalItems"] = gen_spec(rng, cfg, doc, depth + 1)
+        else:
+            a = rng.random()                 # next to a single items schema the keyword is inert for validation, but it is
+            if a < 0.1:                      # still part of the element (repr, ==, serialization)
+                kw["additionalItems"] = False
+            elif a < 0.15:
+                kw["additionalItems"] = gen_spec(rng, cfg, doc, depth + 1)
         for k in ("minItems", "maxItems"):
             if rng.random() < 0.2:
                 kw[k] = rng.choice([0, 1, 2, 3])
